@@ -289,8 +289,12 @@ def c03_7(ctx):
             ctx.fail(fn, re_[0] if re_ else fn.node, 'reindex is not applied to the original structure `%s` with the common index' % dfs)
         elif kw(re_[0].value, 'method') is None or U(kw(re_[0].value, 'method')) != 'method':
             ctx.fail(fn, re_[0], 'df_sync does not forward the fill method to df_reindex')
-    # columns
+    # columns: computed from EVERY frame found anywhere in the (nested) structure
     ctx.count(1)
+    tss = [n for n in body_nodes(fn.node) if isinstance(n, ast.Assign) and U(n.targets[0]) == 'tss']
+    if not tss or N(tss[0].value) != '[ts for ts in listed if is_df(ts)]':
+        ctx.fail(fn, tss[0] if tss else fn.node, 'the frames whose columns define the common column set are `%s`, expected every frame of the flattened structure `[ts for ts in listed if is_df(ts)]`: frames nested inside dicts/lists would be ignored' % (U(tss[0].value) if tss else '?'),
+                 witness='df_sync([df1, dict(x = df2)]) with different columns in df2')
     rc = calls_in(fn.node, 'df_recolumn')
     dc = calls_in(fn.node, 'df_columns')
     if not rc or not dc:
@@ -298,6 +302,10 @@ def c03_7(ctx):
     else:
         if len(dc[0].args) < 2 or U(dc[0].args[1]) != 'columns':
             ctx.fail(fn, dc[0], 'df_columns is not given the column policy')
+        if U(dc[0].args[0]) != 'tss':
+            ctx.fail(fn, dc[0], 'the common columns are computed from `%s`' % U(dc[0].args[0]))
+        if [U(a) for a in rc[0].args] != [dfs, 'cols']:
+            ctx.fail(fn, rc[0], 'df_recolumn is not applied to the whole structure with the common columns')
     index_collection_complete(ctx)
     _c03_7_rest(ctx)
 
@@ -314,6 +322,11 @@ def index_collection_complete(ctx):
         d = single_assign(fn, it)
         if d is None or N(d) != '_list(%s)' % fn.params[0]:
             ctx.fail(fn, comp[0], 'indexes are collected from `%s`, not from the flattened argument' % it)
+        single_definition(ctx, fn, 'indexes', "left/right joins take the FIRST/LAST index in argument order (indexes[0] / indexes[-1]); re-ordering the collected indexes changes which input defines the result index")
+        single_definition(ctx, fn, 'arrs', 'left/right joins of arrays take the first/last length in argument order')
+        use = [r for r in returns_of(fn.node) if isinstance(r.value, ast.Call) and call_name(r.value) == '_df_index']
+        if not use or [U(a) for a in use[0].value.args] != ['indexes', fn.params[1]]:
+            ctx.fail(fn, use[0] if use else fn.node, 'the collected indexes are not handed to _df_index(indexes, policy) as collected')
         v = U(comp[0].generators[0].target)
         conds = [N(i) for i in comp[0].generators[0].ifs]
         want = NS('is_pd(%s) or _is_dict_indexed(%s)' % (v, v))
